@@ -11,7 +11,10 @@ RULE = ("idrange: every code point 0..0x10FFFF (exhaustive). numfmt: all strings
         "non-trivial = at least two tokens or an error")
 ASSUMPTIONS = ["strconv.ParseFloat rounds correctly (checked per case against exact rational arithmetic, not proved)",
                "harness passes only non-negative runes"]
-PARTIAL = "correct rounding of the decimal is strconv's (runtime); compared against exact rational arithmetic on every generated case"
+PARTIAL = ("correct rounding of the decimal is strconv's (runtime); compared against exact rational arithmetic on every generated case. "
+           "lex_is_greedy_segmentation is proved for texts over identifier characters (all keyword glyphs included) except 注 and the "
+           "operator marks; white space, operators, punctuation, quotes, back-ticks and comments are covered by their own theorems "
+           "and by the lex correspondence (every token, error and the Lines table)")
 TRUSTED_EXTRA = ["Python fractions/float for the exact nearest-double reference"]
 
 ALPHA = [0x30, 0x31, 0x37, 0x2B, 0x2D, 0x2E, 0x65, 0x45, 0x2A, 0x5E, 0x78]
@@ -175,4 +178,7 @@ def replay(ctx, data):
     case = data['case']
     print('go   :', ctx.run_go([case])[0])
     print('model:', ctx.run_lean([case])[0])
-    print('spec :', ctx.run_lean(['spec:' + case])[0])
+    if case.startswith('lex '):
+        print('spec :', ctx.run_lean(['spec:segment ' + case.split(' ')[1]])[0], '(documented segmentation; applies to texts of keyword glyphs and name characters)')
+    else:
+        print('spec :', ctx.run_lean(['spec:' + case])[0])
